@@ -1,0 +1,16 @@
+//go:build verif
+
+package bandersnatch
+
+import "github.com/crate-crypto/go-ipa/bandersnatch/fr"
+
+// VerifMsmInner runs the bucket method with an explicitly chosen window
+// width c on already partitioned scalars (verification only).
+func VerifMsmInner(p *PointProj, c int, points []PointAffine, scalars []fr.Element, splitFirstChunk bool) {
+	msmInnerPointProj(p, c, points, scalars, splitFirstChunk)
+}
+
+// VerifPartitionScalars exposes the signed-digit recoding (verification only).
+func VerifPartitionScalars(scalars []fr.Element, c uint64, scalarsMont bool, nbTasks int) ([]fr.Element, int) {
+	return partitionScalars(scalars, c, scalarsMont, nbTasks)
+}
